@@ -21,6 +21,7 @@ type In struct {
 //	R  N       receive at most N items that are available now
 //	F  Picks   release (simple: finish Handle of) the picked in-flight items one after another
 //	FM Picks   release the picked in-flight items all at once
+//	FP P N     release the oldest (N=0) / newest (N=1) in-flight item of priority P
 //	T  N       let N virtual nanoseconds pass
 //	A  P N M   v1: AddInput(new channel of capacity N, P), producer gets M items
 //	X  P       v1: RemoveInput(P)
